@@ -5,6 +5,8 @@ TIER="${1:-quick}"; REPLAY="${2:-}"
 export CARGO_NET_OFFLINE=true
 HERE="$(cd "$(dirname "$0")" && pwd)"
 export VERIF_HOME="$HERE"
+# Background exploration runs (vp run --with-repo) may point the build at a snapshot of /repo; registered checks never set this.
+if [ -n "${DELTIO_REPO:-}" ] && [ "$DELTIO_REPO" != "/repo" ]; then sed -i "s#path = \"/repo\"#path = \"$DELTIO_REPO\"#" "$HERE/sim/Cargo.toml" "$HERE/fc-shuttle/Cargo.toml"; fi
 cd "$HERE/fc-shuttle" || exit 2
 if ! cargo build --offline -q 2> "$HERE/fc-shuttle/build.log"; then
   echo "HARNESS-ERROR: building the C19 harness against /repo failed"; tail -30 "$HERE/fc-shuttle/build.log"; exit 2
